@@ -154,7 +154,7 @@ def plan(tier, rng, sl, nslices, stats):
             right = {"kind": "fa", "fa": fa}
         else:
             right = {"kind": "other", "which": rng.choice(["int", "str", "cfg", "none"])}
-        yield {"left": left, "right": right, "twice": rng.random() < 0.3}
+        yield {"left": left, "right": right, "twice": rng.random() < 0.4}
 
 
 def relabel(ast):
@@ -194,6 +194,17 @@ def run_case(c, stats):
                                             max_prods=4, max_body=3, vcs=["str"]))
         call(other.intersection, arg)
         call(obj.intersection, arg)
+        # a second automaton that shares State objects with the first one (copy() keeps them) but has more
+        # states: the per-object converter indices of the first conversion must not leak into the second
+        ok2, arg2 = call(arg.copy)
+        if ok2:
+            sts = sorted(arg2.states, key=lambda x: repr(x.value))
+            call(arg2.add_transition, "zz_new0", "a", sts[0] if sts else "zz_new1")
+            call(arg2.add_transition, sts[-1] if sts else "zz_new0", "b", "zz_new1")
+            call(arg2.add_final_state, "zz_new1")
+            call(arg2.add_start_state, "zz_new0") if R["fa"]["kind"] != "dfa" else None
+            call(obj.intersection, arg2)
+            call(other.intersection, arg2)
     if ok and L["kind"] == "cfg" and res is not None and R["kind"] != "other":
         call(res.intersection, arg)      # idempotent on the language: checked by the same contract
     return nt
